@@ -3,10 +3,12 @@ import Exetera.Spec.GroupBy
 /-!
   Counterexample theorems for C07.
 
-  * D20 (open finding): `DataFrame.groupby` stacks the key columns into one numpy array; with an int64 and a float64 key
-    column the int64 values are rounded to float64 (`castF64`), with an integer and a string key column the integers
-    are compared as decimal text (`castDec`). The model mirrors this through the per-column cast, and these theorems
-    show the group-by property failing on the witnesses of `corpus/C07/d18_d20.json`.
+  * D20 (fixed: `fixes/D20_groupby_compares_key_columns_separately.patch`): as found `DataFrame.groupby` stacked the key
+    columns into one numpy array; with an int64 and a float64 key column the int64 values were rounded to float64
+    (`castF64`), with an integer and a string key column the integers were compared as decimal text (`castDec`). The
+    as-found code is `groupbyStacked` (= `groupby .asFound`; `groupbyStacked .repaired` is the tree in which D18 / NC08b
+    were already repaired and D20 was still open), which applies the per-column cast; these theorems show the group-by
+    property failing on the witnesses of `corpus/C07/d18_d20.json` as found and holding with the repair.
   * D18 (fixed; owned by C08): the as-found `apply_spans_index_of_min_indexed` gives the wrong string minimum through
     `groupby(...).min`; the repaired variant gives the right one.
 -/
@@ -27,8 +29,26 @@ theorem d20_not_faithful_on : ¬ CastFaithfulOn castF64 [9007199254740993, 90071
 
 /-- … so three rows with the two distinct keys (2^53+1, 0), (2^53, 0) come back as ONE group of 3 rows. -/
 theorem d20_float_collapses_groups :
-    groupbyCount .repaired [⟨castF64, [9007199254740993, 9007199254740992, 9007199254740993]⟩, ⟨id, [0, 0, 0]⟩] false =
+    groupbyCount .asFound [⟨castF64, [9007199254740993, 9007199254740992, 9007199254740993]⟩, ⟨id, [0, 0, 0]⟩] false =
       .ok ⟨[[9007199254740993], [0]], [.ints [3]]⟩ := rfl
+
+/-- the same on the tree that had every other fix: what the stacked `groupby` hands to the aggregates is ONE span -/
+theorem d20_float_collapses_groups_stacked :
+    groupbyStacked .repaired [⟨castF64, [9007199254740993, 9007199254740992, 9007199254740993]⟩, ⟨id, [0, 0, 0]⟩] false =
+      .ok ⟨none, [0, 3]⟩ := rfl
+
+/-- repaired (fix D20): the first column is compared as int64, the frame is found unsorted and sorted, two groups -/
+theorem d20_float_repaired_two_groups :
+    groupbyCount .repaired [⟨castF64, [9007199254740993, 9007199254740992, 9007199254740993]⟩, ⟨id, [0, 0, 0]⟩] false =
+      .ok ⟨[[9007199254740992, 9007199254740993], [0, 0]], [.ints [1, 2]]⟩ := by
+  have hs : SortIndex.datasetSortIndex [[9007199254740993, 9007199254740992, 9007199254740993], [0, 0, 0]] (List.range 3) =
+      .ok [1, 0, 2] := by
+    simp [SortIndex.datasetSortIndex, SortIndex.sortLoop, SortIndex.sortPass, SortIndex.gather, SortIndex.argsortStable, getE,
+      List.mergeSort, List.zipIdx, List.range, List.range.loop, SortIndex.leKey, List.MergeSort.Internal.splitInTwo]
+  have h2 : keysSorted [[9007199254740993, 9007199254740992, 9007199254740993], [0, 0, 0]] = false := by decide
+  simp only [groupbyCount, groupby, groupbyCols, readKeys, List.map, List.all, nrows, List.length, Nat.zero_add, Nat.reduceAdd, h2,
+    BEq.rfl, Bool.and_self, if_true, Bool.or_self, Bool.false_eq_true, if_false, hs]
+  rfl
 
 /-- the property fails on that output: the key tuple (2^53, 0) of row 1 is missing from the result -/
 theorem d20_float_violates_spec :
@@ -46,7 +66,7 @@ theorem castDec_not_faithful : ¬ CastFaithful castDec := by
 
 /-- … so the frame [(10, a), (9, a)] counts as sorted and the keys come back in the order 10, 9: not ascending -/
 theorem d20_text_order_not_ascending :
-    groupbyDistinct .repaired [⟨castDec, [10, 9]⟩, ⟨id, [0, 0]⟩] false = .ok ⟨[[10, 9], [0, 0]], []⟩ ∧
+    groupbyDistinct .asFound [⟨castDec, [10, 9]⟩, ⟨id, [0, 0]⟩] false = .ok ⟨[[10, 9], [0, 0]], []⟩ ∧
     ¬ DistinctAscending (keyRows 2 [[10, 9], [0, 0]]) (keyRows 2 [[10, 9], [0, 0]]) := by
   refine ⟨rfl, ?_⟩
   intro h
